@@ -178,6 +178,45 @@ FIXED_CASES = [
       _q([_grp(0, [(0, 1)], forbidden_aggs=[1]), _grp(1, [(2, 10)])], v=39),
       _q([_grp(0, [(0, 1)], member_of=[[1]]), _grp(1, [(2, 10)]), _grp(2, [(2, 5)])], policy='none'),
       _q([_grp(0, [(0, 1), (2, 10)], member_of=[[1]])], policy='absent')]),
+    # root_required / root_forbidden constrain the ANCHOR, not a sharing provider serving a suffixed group (seed C03-b):
+    # node 1 carries the trait, node 2 does not, the sharing disk provider 3 is associated with both
+    ([('rp_create', 39, 1, 1, None), ('inv_set', 39, 1, 0, [_inv(0, 8)]), ('traits_set', 39, 1, 1, [T_AVX]), ('aggs_set', 39, 1, 2, [3]),
+      ('rp_create', 39, 2, 2, None), ('inv_set', 39, 2, 0, [_inv(0, 8)]), ('aggs_set', 39, 2, 1, [3]),
+      ('rp_create', 39, 3, 3, None), ('inv_set', 39, 3, 0, [_inv(2, 100)]), ('traits_set', 39, 3, 1, [MISC]), ('aggs_set', 39, 3, 2, [3])],
+     [_q([_grp(0, [(0, 1)]), _grp(1, [(2, 10)])], root_required=[T_AVX]),
+      _q([_grp(1, [(2, 10)]), _grp(0, [(0, 1)])], root_forbidden=[MISC]),
+      _q([_grp(1, [(0, 1)]), _grp(2, [(2, 10)])], root_required=[T_AVX], policy='isolate'),
+      _q([_grp(0, [(0, 1), (2, 10)])], root_required=[T_AVX], policy='absent'),
+      _q([_grp(0, [(0, 1)]), _grp(1, [(2, 10)])], root_forbidden=[T_AVX]),
+      _q([_grp(1, [(0, 1)]), _grp(2, [(2, 10)])], same_subtree=[[1, 2]], v=36)]),
+]
+
+
+def _lq(v=39, **kw):
+    f = {'kind': 'list', 'v': v, 'name': None, 'uuid': None, 'in_tree': None, 'member_of': [], 'forbidden_aggs': [],
+         'required': [], 'forbidden': [], 'resources': [], 'split_required': False}
+    f.update(kw)
+    return f
+
+
+# listings: every provider with the required trait also carries the forbidden one, while the aggregate has members -
+# an intermediate result that becomes EMPTY must stay a restriction (seeds C13-c, C13-d, C13-f)
+FIXED_LIST_CASES = [
+    ([('rp_create', 39, 1, 1, None), ('inv_set', 39, 1, 0, [_inv(0, 8)]), ('traits_set', 39, 1, 1, [T_AVX, T_SSD]), ('aggs_set', 39, 1, 2, [1]),
+      ('rp_create', 39, 2, 2, None), ('inv_set', 39, 2, 0, [_inv(0, 8), _inv(2, 50)]), ('aggs_set', 39, 2, 1, [1, 2]),
+      ('rp_create', 39, 3, 3, None), ('inv_set', 39, 3, 0, [_inv(1, 64)]), ('traits_set', 39, 3, 1, [T_SSD])],
+     [_lq(required=[[T_AVX]], forbidden=[T_SSD], member_of=[[1]]),
+      _lq(required=[[T_AVX]], forbidden=[T_SSD], member_of=[[1]], split_required=True),
+      _lq(required=[[T_AVX]], forbidden=[T_SSD]),
+      _lq(uuid=1, forbidden=[T_AVX], member_of=[[1]]),
+      _lq(name=1, forbidden=[T_SSD], member_of=[[1, 2]]),
+      _lq(required=[[T_AVX, T_SSD]], forbidden=[T_SSD], member_of=[[1]]),
+      _lq(member_of=[[1]], forbidden_aggs=[2], required=[[T_SSD]], forbidden=[T_AVX]),
+      _lq(member_of=[[2]], forbidden_aggs=[1]),
+      _lq(forbidden=[T_SSD], member_of=[[1]], v=22),
+      _lq(resources=[(0, 1), (2, 1), (1, 1)]),
+      _lq(resources=[(1, 1), (0, 1)], member_of=[[1]]),
+      _lq(in_tree=1, forbidden=[T_AVX], member_of=[[1]])]),
 ]
 
 
@@ -674,6 +713,17 @@ def run(seed, n_states, n_queries, shard=20, workdir=None, verbose=True, keep=Fa
     states = []
     if p_cand > 0:
         for op_list, queries in FIXED_CASES:
+            app, b = build_fixed(op_list)
+            cases = []
+            for q in queries:
+                obs, r = ask(app, b, q)
+                if on_answer is not None:
+                    on_answer(app, b, q, obs, r)
+                cases.append((q, obs))
+            app.close()
+            states.append((b, cases))
+    if p_cand < 1:
+        for op_list, queries in FIXED_LIST_CASES:
             app, b = build_fixed(op_list)
             cases = []
             for q in queries:
